@@ -11,6 +11,8 @@ def plan(pid, tier, seed):
         mc = [
             {"module": "Deps", "cfg": "Deps_MC_quick.cfg", "emit": True, "sample": 170, "properties": PROPS_ALL, "timeout": 600},
             {"module": "Deps", "cfg": "Deps_Gen_unused_quick.cfg", "emit": True, "sample": 120, "properties": PROPS_ALL, "timeout": 600},
+            # pom cases are cheap to replay (10 ms) and rare among the cases of Deps_MC_quick: own enumeration, larger sample
+            {"module": "Deps", "cfg": "Deps_Gen_pom_quick.cfg", "emit": True, "sample": 250, "properties": PROPS_ALL, "timeout": 600},
         ]
     else:
         mc = [
@@ -18,6 +20,7 @@ def plan(pid, tier, seed):
              "coverage": True},
             {"module": "Deps", "cfg": "Deps_Gen_unused_thorough.cfg", "emit": True, "sample": 1500, "properties": PROPS_ALL, "timeout": 3000},
             {"module": "Deps", "cfg": "Deps_Gen_unused2_thorough.cfg", "emit": True, "sample": 1500, "properties": PROPS_ALL, "timeout": 3000},
+            {"module": "Deps", "cfg": "Deps_Gen_pom_thorough.cfg", "emit": True, "sample": 3000, "properties": PROPS_ALL, "timeout": 3000},
         ]
     return {
         "harness": "deps",
